@@ -38,6 +38,7 @@ type Cache struct {
 	OnSet     func(key keys.Key, v any, ttl time.Duration)
 	OnHit     func(key keys.Key, v any)
 	stopped   bool
+	ControlEvictions int // evictions of changelog / invalidation records (cache-controller bookkeeping)
 	nget, nhit, nset, nevict, nexpired int64
 }
 
@@ -75,6 +76,11 @@ func (c *Cache) Get(k keys.Key) any {
 	if c.EvictRate > 0 && c.run.Chance(c.EvictRate, "evict", ks, occ) {
 		delete(c.m, k)
 		c.nevict++
+		switch e.v.(type) {
+		case *storage.ChangelogCacheEntry, *storage.InvalidEntityCacheEntry:
+			// the cache controller's own bookkeeping lives in the same bounded cache as the data
+			c.ControlEvictions++
+		}
 		c.ev("get-evicted", k, nil, 0)
 		c.mu.Unlock()
 		simrt.Probe("cache_evicted")
